@@ -90,6 +90,12 @@ impl SimSource {
     pub fn bytes_per_sample(&self) -> usize {
         (self.bits + 7) / 8
     }
+
+    /// Replaces the read plan (lengths and representation of every read).
+    #[allow(dead_code)]
+    pub fn set_plan(&mut self, plan: Vec<ReadPlan>) {
+        self.plan = plan;
+    }
 }
 
 impl Source for SimSource {
@@ -148,11 +154,16 @@ impl Source for SimSource {
                     self.fired.push("out_of_range");
                 }
                 Fault::Oversize { k: fk, extra } if *fk == k => {
-                    for j in 0..(*extra * ch) {
+                    // more than the buffer holds: `extra` samples beyond the requested block size
+                    // (a read shorter than a block is padded up to the block first)
+                    let total = block_size + *extra;
+                    let mut j = 0;
+                    while self.tmp.len() < total * ch {
                         let v = self.tmp[j % (n * ch)];
                         self.tmp.push(v);
+                        j += 1;
                     }
-                    reported = n + *extra;
+                    reported = total;
                     self.fired.push("oversize_fill");
                 }
                 Fault::WrongBps { k: fk, bps } if *fk == k => {
